@@ -185,7 +185,16 @@ def call_setup(b):
     m, M = sym.const(INT, 'min_length'), sym.const(INT, 'max_length')
     b.assume(Q(m.z, M.z))
     b.m, b.M = m, M
-    b.bind('self', Obj('self', min_length=m, max_length=M))
+    me = Obj('self', min_length=m, max_length=M)
+    me._lenient = True
+
+    def on_unknown(interp, st, name):
+        # "never by earlier calls" / "different keys lead to different boundaries": a call must not depend on
+        # instance state left behind by other calls (only the configured bounds are read)
+        interp.oblige(st, f'call.no_hidden_instance_state', z3.BoolVal(False), meta={'state': name})
+
+    me._on_unknown = on_unknown
+    b.bind('self', me)
     b.sym('params', Opt(BYTES))
     n = z3.Int('n_pieces')
     b.n = n
@@ -308,6 +317,9 @@ def call_post(prop):
                 nxt = p.st.lookup('next_chunk') if p.st.has('next_chunk') else None
                 if nxt is not None:
                     res.oblige(p.pc_at(e), f'{prop}.call.final_flag', e.data['final'].z == Opt(BYTES).is_none(nxt.z))
+            if p.events('yield') or p.events('next_cut'):
+                # the native chunker used by this call is built in this call from this call's key
+                res.oblige(p, f'{prop}.call.chunker_built_in_this_call', z3.BoolVal(len(p.events('make_chunker')) == 1))
             for e in p.events('make_chunker'):
                 a = e.data['args']
                 key = Opt(BYTES).val(a[2].z) if isinstance(a[2].ty, Opt) else sym.lift(a[2], BYTES).z
